@@ -5,6 +5,7 @@
 // the result has one dimension per full_extent slice, in source order, with the source's
 // static extent and run-time extent.  strided_slice is rejected by a static_assert and
 // submdspan itself is commented out in tetl: not provided, not called.
+// -DMC_WIDE=1 (thorough): instead rank 3 over all five dimension kinds and rank 4 over {2,3,dynamic}.
 #include "c19_common.hpp"
 
 using namespace c19;
@@ -50,8 +51,8 @@ void sub_fn(ll const* dv, ll const* idx, SubObs& o)
 
 using SubFn = void (*)(ll const* dv, ll const* idx, SubObs& o);
 struct SubFns {
-    SubFn own[8];   // index slices passed as index_type, per mask
-    SubFn other[8]; // as the other integer type
+    SubFn own[16];   // index slices passed as index_type, per mask (bit k set: dimension k gets an index slice)
+    SubFn other[16]; // as the other integer type
 };
 template <typename E, std::size_t... Ms>
 constexpr SubFns make_sub_fns(std::index_sequence<Ms...> /*s*/)
@@ -157,10 +158,16 @@ int main(int argc, char** argv)
 #endif
     auto const tiers     = MC_ITYPE == 1 ? both : th;
     std::string const in = iname<I>();
+#if !defined(MC_WIDE)
     m.job(cat("submdspan_extents/", in, "/rank1-2"), tiers, [](mc::Reporter& r) {
         job_sub<I, A5, 1>(r, 4);
         job_sub<I, A5, 2>(r, 4);
     });
     m.job(cat("submdspan_extents/", in, "/rank3"), tiers, [](mc::Reporter& r) { job_sub<I, A3, 3>(r, 4); });
+#else
+    // round 2 (thorough): rank 3 over all five dimension kinds (125 types x 8 slice-kind tuples), rank 4 over {2,3,dynamic} (81 types x 16)
+    m.job(cat("submdspan_extents/", in, "/rank3-5kinds"), th, [](mc::Reporter& r) { job_sub<I, A5, 3>(r, 4); });
+    m.job(cat("submdspan_extents/", in, "/rank4"), th, [](mc::Reporter& r) { job_sub<I, A3, 4>(r, 3); });
+#endif
     return m.run();
 }
